@@ -94,7 +94,13 @@ let sse_case (toks : string list) (impl_line : string) : string * string =
               | VOk ->
                 (match oracle_c11_strict accepted wire_all with
                  | VOk -> "oracle=ok"
-                 | _ -> if kf_c11_missing_blank_line (pieces_of wire_all) then "oracle=fail@no-dispatch kf=D9"
+                 | _ ->
+                   if kf_c11_missing_blank_line (pieces_of wire_all) then
+                     (* the orchestrator does not compare observations of a case that carries a known-finding
+                        verdict; keep the correspondence check alive: when implementation and model differ the
+                        known class is not claimed for this case and the difference is what gets reported *)
+                     (if String.trim impl_line = model then "oracle=fail@no-dispatch kf=D9"
+                      else "oracle=ok strict=no-dispatch(D9-class,not-claimed:observations-differ)")
                    else "oracle=fail@no-dispatch")
               | VBadChunking -> "oracle=fail@bad-chunking"
               | VBlockMismatch -> "oracle=fail@block-does-not-parse-back"
